@@ -140,6 +140,10 @@ for key, (prop, change, needs, caught, missed) in sorted(T.items()):
         confirmed_by='tools/seeded.sh: scratch worktree of /repo HEAD; demo on the clean tree (exit 0), git apply patch.diff, demo (exit 1), full pytest suite compared with BASELINE.json stable_pass (no stable test lost); then `VERIF_REPO=<worktree> ./run.py check <ID> --tier quick` for the listed checks',
         checked_against_repo_commit=res.get(key, {}).get('applies_at'),
         caught_by_quick_checks=caught, not_caught_by=missed)
+    if res.get(key, {}).get('applies_at') is None:
+        meta['note'] = ('the patch no longer applies to /repo HEAD (the function it changes was '
+            'rewritten by a later fix: commit); results are those of the confirmation run '
+            'against the commit it was written for')
     (d/'meta.json').write_text(json.dumps(meta, indent=1) + '\n')
     rows.append(f"| {key} | {prop} | {change} | {needs} | {', '.join(caught)} | {', '.join(missed) or '-'} |")
 (V/'seeded'/'INDEX.md').write_text('# Seeded changes (written by independent sub-agents, confirmed by tools/seeded.sh)\n\n'
